@@ -409,3 +409,25 @@ def inline_self_reborrow(text):
     out = text[:m.start()] + text[m.end():]
     out, n = re.subn(r"\b%s\b" % re.escape(name), "self", out)
     return out, n + 1
+
+
+def abstract_let_block(text, var, starts_with, replacement):
+    """R8: `let VAR = STARTS_WITH( ... );` (one statement, however many lines and nested closures) -> `let VAR = REPLACEMENT;`"""
+    m = re.search(r"let %s = %s" % (re.escape(var), re.escape(starts_with)), text)
+    if not m:
+        return text, 0
+    # the statement ends at the first `;` at nesting depth 0 after the match
+    depth = 0
+    i = m.end()
+    while i < len(text):
+        c = text[i]
+        if c in "([{":
+            depth += 1
+        elif c in ")]}":
+            depth -= 1
+        elif c == ";" and depth == 0:
+            break
+        i += 1
+    if i >= len(text):
+        return text, 0
+    return text[:m.start()] + "let %s = %s;" % (var, replacement) + text[i + 1:], 1
